@@ -686,6 +686,9 @@ func GenE3(prop string, seed uint64) *Program {
 			if op.ExpKind == 1 {
 				op.ExpKind = 2
 			}
+			if op.ExpKind == 3 {
+				op.ExpKind = 0
+			}
 			prog.Ops = append(prog.Ops, op)
 		}
 	}
